@@ -58,10 +58,23 @@ def cases(draw):
     layer = draw(st.sampled_from(("L1", "L2", "L2", "both")))
     orders = []
     idx = list(range(len(ITEMS)))
-    for _ in range(n):
-        orders.append(draw(st.permutations(idx)))
-    delays = [[draw(st.integers(0, 996)), draw(st.sampled_from((0.2, 0.5, 1, 2)))] for _ in range(draw(st.integers(10, 120)))] if layer != "L1" else []
-    return {"threads": n, "layer": layer, "orders": [list(o) for o in orders], "delays": delays, "switch": draw(st.sampled_from((1e-6, 1e-5, 5e-3)))}
+    # order modes: independent permutations rarely make two threads want the SAME dialect within the few milliseconds its class is
+    # being built; 'same' (one permutation for all, threads drift apart through delays) and 'rotated' (thread k starts k*r items
+    # later in the same cyclic order) put a second thread right behind the first user of every dialect
+    mode = draw(st.sampled_from(("random", "same", "rotated", "rotated")))
+    if mode == "random":
+        for _ in range(n):
+            orders.append(draw(st.permutations(idx)))
+    else:
+        base = list(draw(st.permutations(idx)))
+        r = draw(st.integers(1, 4)) if mode == "rotated" else 0
+        for k in range(n):
+            off = (k * r) % len(base)
+            orders.append(base[off:] + base[:off])
+    dense = layer != "L1" and draw(st.booleans())
+    n_delays = draw(st.integers(200, 400)) if dense else draw(st.integers(10, 120))
+    delays = [[draw(st.integers(0, 996)), draw(st.sampled_from((0.2, 0.5, 1, 2)))] for _ in range(n_delays)] if layer != "L1" else []
+    return {"threads": n, "layer": layer, "orders": [list(o) for o in orders], "delays": delays, "switch": draw(st.sampled_from((1e-6, 1e-5, 5e-3))), "mode": mode}
 
 
 def _run(case):
@@ -125,7 +138,7 @@ def check_case(case, res=None):
     if res is not None:
         overlap = out.get("max_inside", 0)
         nontrivial = overlap >= 2 or (case["layer"] == "L1" and case["threads"] >= 4)
-        res.case(core.h8(case), bool(nontrivial), [f"layer:{case['layer']}", f"threads:{case['threads']}"] + (["overlap-observed"] if overlap >= 2 else []))
+        res.case(core.h8(case), bool(nontrivial), [f"layer:{case['layer']}", f"threads:{case['threads']}", f"orders:{case.get('mode', 'random')}"] + (["overlap-observed"] if overlap >= 2 else []))
         res.extra["calls_compared"] = res.extra.get("calls_compared", 0) + sum(len(r) for r in out["results"])
         res.extra["max_threads_inside_first_use_function"] = max(res.extra.get("max_threads_inside_first_use_function", 0), overlap)
         if not fails:
